@@ -35,9 +35,18 @@
 use std::isize;
 use std::marker::PhantomData;
 use std::ops::Deref;
+#[cfg(not(sighook_verif))]
 use std::sync::atomic::{self, AtomicPtr, AtomicUsize, Ordering};
+#[cfg(not(sighook_verif))]
 use std::sync::{Mutex, MutexGuard, PoisonError};
+#[cfg(not(sighook_verif))]
 use std::thread;
+#[cfg(sighook_verif)]
+use std::sync::atomic::Ordering;
+#[cfg(sighook_verif)]
+use std::sync::PoisonError;
+#[cfg(sighook_verif)]
+use verif::{self as atomic, self as thread, AtomicPtr, AtomicUsize, Mutex, MutexGuard};
 
 use libc;
 
@@ -73,6 +82,8 @@ impl<'a, T> WriteGuard<'a, T> {
     pub(crate) fn store(&mut self, val: T) {
         // Move to the heap and convert to raw pointer for AtomicPtr.
         let new = Box::into_raw(Box::new(val));
+        #[cfg(sighook_verif)]
+        ::verif::note(::verif::Op::Alloc, self.lock.verif_addrs()[0], new as usize);
 
         self.data = unsafe { &*new };
 
@@ -83,6 +94,8 @@ impl<'a, T> WriteGuard<'a, T> {
         // Now we make sure there's no reader having the old data.
         self.lock.write_barrier();
 
+        #[cfg(sighook_verif)]
+        ::verif::point(::verif::Op::Free, self.lock.verif_addrs()[0], old as usize);
         drop(unsafe { Box::from_raw(old) });
     }
 }
@@ -213,6 +226,22 @@ impl<T> HalfLock<T> {
             _guard: guard,
             lock: self,
         }
+    }
+}
+
+#[cfg(sighook_verif)]
+impl<T> HalfLock<T> {
+    /// Addresses of the pointer, the generation, the two slots and the mutex, and the current
+    /// value of the pointer (so a harness can name the locations in its traces).
+    pub(crate) fn verif_addrs(&self) -> [usize; 6] {
+        [
+            &self.data as *const _ as usize,
+            &self.generation as *const _ as usize,
+            &self.lock[0] as *const _ as usize,
+            &self.lock[1] as *const _ as usize,
+            &self.write_mutex as *const _ as usize,
+            unsafe { *(&self.data as *const _ as *const usize) },
+        ]
     }
 }
 
